@@ -193,6 +193,7 @@ func probe(f []string) string {
 		}
 		cl := s.NewClient()
 		out := "returned"
+		var rs resolve.Resolver
 		for _, pk := range s.Packages {
 			for _, v := range pk.Versions {
 				if v.VersionType != resolve.Concrete {
@@ -201,14 +202,18 @@ func probe(f []string) string {
 				vk := resolve.VersionKey{PackageKey: resolve.PackageKey{System: sys, Name: pk.Name}, VersionType: resolve.Concrete, Version: v.Version}
 				deadlineHit := false
 				r := withDeadline(2*time.Second, func(ctx context.Context) {
-					var rs resolve.Resolver
-					switch sys {
-					case resolve.NPM:
-						rs = npmres.NewResolver(cl)
-					case resolve.Maven:
-						rs = mavenres.NewResolver(cl)
-					default:
-						rs = pypires.NewResolver(cl)
+					// ONE resolver per universe, reused for every root: resolvers keep caches
+					// (parsed markers, constraints) between calls, and a malformed entry cached by
+					// one resolution must not crash the next
+					if rs == nil {
+						switch sys {
+						case resolve.NPM:
+							rs = npmres.NewResolver(cl)
+						case resolve.Maven:
+							rs = mavenres.NewResolver(cl)
+						default:
+							rs = pypires.NewResolver(cl)
+						}
 					}
 					g, err := rs.Resolve(ctx, vk)
 					if ctx.Err() != nil {
@@ -445,6 +450,10 @@ func run(c *fw.Ctx) {
 			semverops.Pick(c.Rng, "", " >=1.0", "(>=1,<2)", "==1.*", " @ http://x", "(", ">=") + semverops.Pick(c.Rng, "", "; python_version < '3'", ";", " ; extra == \"x\"", "; (")
 		if i%3 == 0 {
 			dep = semverops.Mutate(c.Rng, dep)
+		}
+		if i%7 == 0 {
+			// a name (or a whole requirement) followed by white space of every kind, ASCII or not
+			dep = semverops.Pick(c.Rng, "requests", "numpy", "a.b-c", dep) + semverops.Pick(c.Rng, "\r", "\n", "\v", "\f", "\u00a0", "\u0085", "\u3000", " \r", "\t\n", " \u00a0", "\r\n", "\u2028")
 		}
 		one("C04 probe pypi.ParseDependency " + fw.Hx(dep))
 		one("C04 probe pypi.CanonPackageName " + fw.Hx(semverops.Mutate(c.Rng, "My_Package.Name--x")))
